@@ -771,6 +771,27 @@ theorem skel_runJobs_ok :
      "self.waiters = self.waiters[len(self.waiters):]"] := by
   first | exact Or.inr rfl | exact Or.inl rfl
 
+/-- `refreshResources`: which sampled quantity goes into which availability
+update (the sampled values themselves are environment input, not modelled):
+memory `UpdateFreeUsed(free, rss of mrp's CHILDREN — mrp itself excluded)`,
+vmem `UpdateActual(max - vmem of the children)`, cores `UpdateActual(idle cores)`,
+processes `UpdateFreeUsed(rlimit - user's processes, children + startingThreadCount)`. -/
+theorem skel_refreshResources_ok :
+    Gen.c12Skel_refreshResources_extracted = false ∨ Gen.c12Skel_refreshResources =
+    ["err := sysMem.Get()",
+     "usedMem, err := GetProcessTreeMemory(os.Getpid(), false, nil)",
+     "memDiff := self.memMBSem.UpdateFreeUsed( (sysMem.ActualFree+1024*1024-1)/(1024*1024), (usedMem.Rss+1024*1024-1)/(1024*1024))",
+     "if self.vmemMBSem != nil",
+     "self.vmemMBSem.UpdateActual( self.maxVmemMB - usedMem.Vmem/(1024*1024))",
+     "if self.limitLoad",
+     "err := load.Get()",
+     "diff := self.centcoreSem.UpdateActual( int64((float64(runtime.NumCPU()) - load.One + 0.9) * 100), )",
+     "if self.procsSem != nil",
+     "rlim, err := GetMaxProcs()",
+     "userProcs, err := GetUserProcessCount()",
+     "self.procsSem.UpdateFreeUsed( rlimCur(rlim)-int64(userProcs), int64(usedMem.Procs)+startingThreadCount)"] := by
+  first | exact Or.inr rfl | exact Or.inl rfl
+
 theorem skel_setupSemaphores_ok :
     Gen.c12Skel_setupSemaphores_extracted = false ∨ Gen.c12Skel_setupSemaphores =
     ["self.centcoreSem = NewResourceSemaphore(int64(self.maxCores)*100, formatCentiThreads)",
